@@ -286,7 +286,7 @@ def main(tier):
         if fam in ("lit", "cast", "shots", "constfold", "constfold-size", "cliarg") or fam.startswith("index"):
             continue
         ck.cap("family '%s': %d of %d programs were rejected at compile time and exercised nothing at run time" % (fam, rej, famtot[fam]))
-        if rej * 2 > famtot[fam]:
+        if rej * 2 > famtot[fam] and not ck.violations:
             ck.harness_error("family '%s' is vacuous: %d of %d programs are rejected by the front end (generator rot, or the analyser rejects valid programs - see C16)" % (fam, rej, famtot[fam]))
     for k, v in sorted(ub.items(), key=lambda kv: -kv[1])[:8]:
         ck.note("UBSan (recoverable, not a verdict): %s x%d" % (k, v))
